@@ -103,6 +103,18 @@ func (t *vC18) pair(a, b []float32) {
 			t.bad("batch-differs-from-scalar", fmt.Sprintf("%s a=%v b=%v batch %v scalar %v", name, a, b, got, want))
 		}
 	}
+	// --- a batch result belongs to the caller: it keeps its values while later batch calls
+	// (of any kind, with other operands) run
+	for name, dist := range map[string]Distance{"l2": l2, "l2sq": sq, "cosine": cs} {
+		kept := dist.CalculateBatch([][]float32{a, b, a}, b)
+		want := []float32{dist.Calculate(a, b), dist.Calculate(b, b), dist.Calculate(a, b)}
+		for _, other := range []Distance{l2, sq, cs} {
+			other.CalculateBatch([][]float32{b, b, a, a}, a)
+		}
+		if !vBitsEq(kept, want) {
+			t.bad("batch-result-changed-by-later-call", fmt.Sprintf("%s a=%v b=%v: the slice returned earlier now holds %v, it held %v", name, a, b, kept, want))
+		}
+	}
 	// --- batch over queries that are VIEWS into one backing array (rows of a matrix, the
 	// first one with spare capacity), with a middle entry replaced by a separate slice and
 	// with two middle rows exchanged: entry i of the batch is the distance to queries[i],
